@@ -5,7 +5,6 @@ import (
 	"fmt"
 	"html"
 	"strings"
-	"unicode/utf8"
 
 	"github.com/textwire/textwire/v2/ctx"
 	"github.com/textwire/textwire/v2/fail"
@@ -149,9 +148,14 @@ func strTruncateFunc(_ *ctx.EvalCtx, receiver object.Object, args ...object.Obje
 	}
 
 	val := receiver.(*object.Str).Value
+	chars := []rune(val)
 	limit := int(firstArg.Value)
 
-	if limit >= utf8.RuneCountInString(val) {
+	if limit < 0 {
+		limit = 0
+	}
+
+	if limit >= len(chars) {
 		return &object.Str{Value: val}, nil
 	}
 
@@ -168,7 +172,7 @@ func strTruncateFunc(_ *ctx.EvalCtx, receiver object.Object, args ...object.Obje
 		}
 	}
 
-	newVal := val[:firstArg.Value] + ellipsis
+	newVal := string(chars[:limit]) + ellipsis
 
 	return &object.Str{Value: newVal}, nil
 }
